@@ -226,6 +226,7 @@ def run_history(case: dict) -> list:
             ev = {"tid": case["tid"], "k": k, "label": case["label"], "crash": (r["exc"] or "")[-500:],
                   "exit": r["exit"], "req": rr, "expect": step.get("expect", "any"), "sameAsPrev": cmd == prev_cmd, "treeUnchanged": snap0 == snap1,
                   "files": [{"name": n, "mustSucceed": bool(step.get("must", {}).get(n, False)),
+                             "mustFail": bool(step.get("mustfail", {}).get(n, False)),
                              "unrecognised": bool(fmeta.get(n, {}).get("unrecognised")),
                              "pre": pre[n], "post": post[n]} for n in names],
                   "out": asc((r["out"] + r["err"])[-300:]), "cmd": [asc(c.replace(str(root), "<root>")) for c in cmd]}
